@@ -196,6 +196,15 @@ def _cases(ctx):
         for kind in ('quote', 'list', 'bracket', 'emph', 'mixed', 'altlist', 'altlist2'):
             for rn, kw in (cs if depth == 100 and not kind.startswith('alt') else cs[:3]):
                 cases.append({'renderer': rn, 'kwargs': kw, 'text': nested(depth, kind), 'depth': depth})
+    # deep containers FOLLOWED BY lines without markers (lazy continuation of the innermost paragraph) or by shallower lines:
+    # whatever a container reader does per such line is multiplied by the depth - or, done recursively, by much more
+    for depth in (8, 16, 30, 100):
+        for kind in ('quote', 'list', 'mixed'):
+            for k in (1, 5, 10):
+                for tail in ('b\n', '> b\n', '  b\n', '>\n'):
+                    if tail != 'b\n' and k != 5:
+                        continue
+                    cases.append({'renderer': 'HtmlRenderer', 'kwargs': {}, 'text': nested(depth, kind) + tail * k, 'depth': depth})
     return cases
 
 
